@@ -14,6 +14,7 @@ def run(rep, tier):
         rep.call(validators.crop_u32, rep, prog, "C04.crop-u32")
         rep.call(validators.buffer_validators, rep, prog, "C04.buffers")
         rep.call(validators.constructors_validate, rep, prog, "C04.constructors")
+        rep.call(validators.unchecked_crop, rep, prog, "C04.unchecked-crop")
         n = c03.arith(rep, prog, "C04.arith", only=lambda f: any(
             f.file == s or f.file.startswith(s) for s in VALIDATOR_FILES))
         rep.floor("C04.arith", "arithmetic asserts in validators/containers", n, 30)
